@@ -178,3 +178,135 @@ def k_find_vertices(p):
 
 
 KINDS = {"gen": k_gen, "find_vertices": k_find_vertices}
+
+
+def k_arith(p):
+    """C15: one call of a big-number helper vs Python int arithmetic."""
+    import dsw
+    op, a, b = p["op"], p["number"], p["base"]
+    f = {"add": dsw.calculus_addition, "sub": dsw.calculus_subtraction, "mul": dsw.calculus_multiplication, "div": dsw.calculus_division}[op]
+    r, ex = call(f, a, b)
+    A, B = int(a), int(b)
+    if op == "sub" and A < B:
+        return False, "negative result: outside the property"
+    if op == "div" and B == 0:
+        return False, "division by zero: outside the property"
+    if ex is not None:
+        return True, "%s(%r, %r) raised %s" % (op, a, b, ex)
+    exp = {"add": lambda: str(A + B), "sub": lambda: str(A - B), "mul": lambda: str(A * B), "div": lambda: (str(A // B), str(A % B))}[op]()
+    got = tuple(r) if op == "div" else r
+    if got != exp:
+        return True, "%s(%r, %r) = %r, exact result %r" % (op, a, b, got, exp)
+    return False, "exact"
+
+
+def k_conv(p):
+    """C16: conversions."""
+    import dsw
+    fn = p["fn"]
+    if fn == "bits":
+        bits = p["bits"]
+        L = len(bits)
+        val = int("".join(map(str, bits)), 2) if bits else 0
+        s, ex1 = call(dsw.bit_to_number, bits, is_string=True)
+        i, ex2 = call(dsw.bit_to_number, bits, is_string=False)
+        if ex1 or ex2:
+            return True, "bit_to_number raised %s / %s" % (ex1, ex2)
+        if s != str(val) or i != val:
+            return True, "bit_to_number(%s) = %r / %r, value %d" % (bits, s, i, val)
+        for arg in (s, i):
+            back, ex = call(dsw.number_to_bit, arg, L)
+            if ex:
+                return True, "number_to_bit(%r, %d) raised %s" % (arg, L, ex)
+            if [int(x) for x in back] != [int(x) for x in bits]:
+                return True, "number_to_bit(%r, %d) = %s != %s" % (arg, L, back, bits)
+        return False, "round trip ok"
+    if fn == "dna":
+        s = p["dna"]
+        n = len(s)
+        val = 0
+        for c in s:
+            val = val * 4 + NUC.index(c)
+        a, ex1 = call(dsw.dna_to_number, s, is_string=True)
+        b, ex2 = call(dsw.dna_to_number, s, is_string=False)
+        if ex1 or ex2:
+            return True, "dna_to_number raised %s / %s" % (ex1, ex2)
+        if a != str(val) or b != val:
+            return True, "dna_to_number(%r) = %r / %r, value %d" % (s, a, b, val)
+        for arg in (a, b):
+            back, ex = call(dsw.number_to_dna, arg, n)
+            if ex:
+                return True, "number_to_dna(%r, %d) raised %s" % (arg, n, ex)
+            if back != s:
+                return True, "number_to_dna(%r, %d) = %r != %r" % (arg, n, back, s)
+        return False, "round trip ok"
+    if fn in ("num2bit", "num2dna"):
+        v, width = int(p["value"]), int(p["width"])
+        arg = str(v) if p.get("as_string") else v
+        if fn == "num2bit":
+            r, ex = call(dsw.number_to_bit, arg, width)
+            exp = [(v >> (width - 1 - i)) & 1 for i in range(width)]
+            if ex or [int(x) for x in r] != exp:
+                return True, "number_to_bit(%r, %d) = %r (%s), expected %s" % (arg, width, r, ex, exp)
+            back, ex = call(dsw.bit_to_number, r, is_string=False)
+            if ex or back != v:
+                return True, "bit_to_number(number_to_bit(%r)) = %r" % (arg, back)
+        else:
+            r, ex = call(dsw.number_to_dna, arg, width)
+            exp = "".join(NUC[(v // 4 ** (width - 1 - i)) % 4] for i in range(width))
+            if ex or r != exp:
+                return True, "number_to_dna(%r, %d) = %r (%s), expected %r" % (arg, width, r, ex, exp)
+            back, ex = call(dsw.dna_to_number, r, is_string=False)
+            if ex or back != v:
+                return True, "dna_to_number(number_to_dna(%r)) = %r" % (arg, back)
+        return False, "ok"
+    return False, "unknown fn"
+
+
+def k_succ(p):
+    """C13: successor / predecessor arithmetic."""
+    import dsw
+    k, v = int(p["k"]), int(p["v"])
+    N = 4 ** k
+    la, ex1 = call(dsw.obtain_latters, v, k)
+    fo, ex2 = call(dsw.obtain_formers, v, k)
+    if ex1 or ex2:
+        return True, "raised %s / %s" % (ex1, ex2)
+    s = kmer(v, k)
+    el = [NUC_index(s[1:] + c) for c in NUC]
+    ef = [NUC_index(c + s[:-1]) for c in NUC]
+    if [int(x) for x in la] != el:
+        return True, "obtain_latters(%d, %d) = %s, k-mer arithmetic gives %s" % (v, k, la, el)
+    if [int(x) for x in fo] != ef:
+        return True, "obtain_formers(%d, %d) = %s, k-mer arithmetic gives %s" % (v, k, fo, ef)
+    nd, ex = call(dsw.number_to_dna, v, k)
+    if ex or nd != s:
+        return True, "number_to_dna(%d, %d) = %r (%s), expected %r" % (v, k, nd, ex, s)
+    dn, ex = call(dsw.dna_to_number, s, is_string=False)
+    if ex or dn != v:
+        return True, "dna_to_number(%r) = %r (%s)" % (s, dn, ex)
+    if p.get("u") is not None:
+        u = int(p["u"])
+        a = u in [int(x) for x in dsw.obtain_formers(v, k)]
+        b = v in [int(x) for x in dsw.obtain_latters(u, k)]
+        if a != b:
+            return True, "u=%d in formers(v=%d) is %s but v in latters(u) is %s" % (u, v, a, b)
+    if p.get("complete"):
+        acc = dsw.get_complete_accessor(k)
+        if p.get("mutate_between"):
+            acc[:, :] = -1
+            acc = dsw.get_complete_accessor(k)
+        for j in range(4):
+            if int(acc[v][j]) != el[j]:
+                return True, "complete accessor [%d][%d] = %d, expected %d" % (v, j, int(acc[v][j]), el[j])
+    return False, "ok"
+
+
+def NUC_index(s):
+    v = 0
+    for c in s:
+        v = v * 4 + NUC.index(c)
+    return v
+
+
+KINDS.update({"arith": k_arith, "conv": k_conv, "succ": k_succ})
